@@ -270,6 +270,9 @@ C17_FailedWriteLeavesLog ==
   [][IsStep /\ ev.op = "AF" =>
        /\ ev.err # "" /\ ev.writes = <<>> /\ ev.ret = 0
        /\ post[ev.r].ents = pre[ev.r].ents /\ post[ev.r].heads = pre[ev.r].heads /\ post[ev.r].values = pre[ev.r].values]_vars
+\* a publication whose block the store refused returns an error, writes nothing and leaves every log as it was
+C17_FailedPublish ==
+  [][IsStep /\ ev.op = "PF" => ev.err # "" /\ ev.writes = <<>> /\ ~ev.retstored /\ post = pre]_vars
 \* an empty log cannot be published; a non-empty one can
 C17_PublishResult ==
   [][IsStep /\ ev.op = "P" => ((ev.err = "") = (pre[ev.r].heads # <<>>)) /\ post = pre]_vars
